@@ -44,6 +44,17 @@ REACH = [
     "manipulation/modify.py:rename_genes",
 ]
 CRASH_IS_VIOLATION = True
+
+# operations that have no failure mode at all for the argument shapes of the catalogue (cv/ops.py; their failing
+# forms are separate ".failing" operations): an exception is a violation for these, and only counted for the others
+# (solver-level helpers, optimize, add_boundary, medium, renaming to identifiers the solver may refuse ...).  On the
+# unchanged tree none of them raised in any sweep (evidence: set "unpredicted_raises").
+TOTAL = {
+    "reaction*=", "reaction+=", "reaction-=", "reaction.add_metabolites", "reaction.subtract_metabolites", "reaction.knock_out",
+    "gene.knock_out", "manipulation.knock_out_model_genes", "reaction.bounds=", "reaction.objective_coefficient=", "gene.functional=",
+    "model.objective_direction=", "model.remove_reactions", "model.remove_metabolites", "reaction.remove_from_model",
+    "metabolite.remove_from_model", "model.add_groups", "model.remove_groups",
+}  # fmt: skip
 DERIVED = {"metabolites": {"reactions", "outside_reactions"}, "genes": {"reactions", "outside_reactions"}, "reactions": set(), "groups": set()}
 
 
@@ -207,6 +218,16 @@ def run_case(base, case, acc):
             else:
                 acc.count("steps_raised_not_predicted")
                 acc.add("unpredicted_raises", f"{name}:{type(exc).__name__}")
+                if name in TOTAL and not st.get("exit_failed_known"):
+                    # "changes the model's content exactly as its documentation says": for these operations the
+                    # documentation names no way to fail with the argument shapes the catalogue generates
+                    acc.violation(
+                        f"C02/{name}/raised-on-valid-arguments/{type(exc).__name__}",
+                        f"{name} raised {type(exc).__name__}: {str(exc)[:160]} - the documentation describes a result for these arguments, not a failure",
+                        w(args=desc),
+                    )
+                    st["ok"] = False
+                    return False
             acc.nontrivial(shape, "raised", type(exc).__name__)
             st["ref"], st["before"] = act, after  # no atomicity is documented: re-synchronise
             return True
